@@ -423,6 +423,13 @@ func c04World(t *testing.T, p c04Params) rt.Result {
 				}
 			}
 		}
+		// no call hangs: the simulated send buffer holds a write up for 1.3 s at most
+		for _, c := range st.calls {
+			if d := c.retAt - c.at; d > 2*time.Second {
+				w.Violate("WriteUpdate (epoch %d writer %d seq %d) called at +%v returned only at +%v, %v later (result %v): a call in flight when its session ended must not wait for anything else", c.epoch, c.wid, c.seq, c.at, c.retAt, d, c.err)
+				break
+			}
+		}
 		// stale writers: every call that started after its session's OnClose began must fail
 		_, _, ss := mon.Snapshot()
 		for _, c := range st.calls {
